@@ -306,7 +306,8 @@ def r3_boxed(ctx, f, ms):
                     isinstance(m.stmt.targets[0], (ast.Tuple, ast.List)):
                 ok = _is_joint_resort(ctx, f, m.stmt)
             else:
-                ok = _list_of_boxed(ctx, f, m.value)
+                ok = _list_of_boxed(ctx, f, m.value) or \
+                    _is_joint_resort(ctx, f, m.stmt)
             val = m.value
         else:
             continue        # deletions, clear, pop store nothing
@@ -394,11 +395,53 @@ def r3_helpers(ctx):
 
 
 # ---------------------------------------------------------------------------
+def _unzipped_sorted(ctx, f, expr, base):
+    """k if `expr` is (a list(...) of) the k-th component of
+    `zip(*sorted(zip(<base>.coords, <base>.payloads)))`, else None."""
+    e = expr
+    if isinstance(e, ast.Call) and text(e.func) in ("list", "tuple") and len(e.args) == 1:
+        e = e.args[0]
+    if not isinstance(e, ast.Name):
+        return None
+    facts, is_param = ctx.ty.facts_at(f, e.id, e)
+    if is_param or len(facts) != 1:
+        return None
+    fa = facts[0]
+    v = fa.value
+    if fa.kind != "expr" or len(fa.path) != 1 or not (
+            isinstance(v, ast.Call) and text(v.func) == "zip" and len(v.args) == 1
+            and isinstance(v.args[0], ast.Starred)):
+        return None
+    src = pat.inline(ctx, f, v.args[0].value, depth=4).replace(" ", "")
+    if src == "sorted(zip(%s.coords,%s.payloads))" % (base, base):
+        return fa.path[0]
+    return None
+
+
 def _is_joint_resort(ctx, f, stmt):
     """``self.coords, self.payloads = <unzip of sorted(zip(self.coords,
-    self.payloads))>``"""
-    if not (isinstance(stmt, ast.Assign) and
-            isinstance(stmt.targets[0], (ast.Tuple, ast.List))):
+    self.payloads))>`` -- in one tuple assignment, or as the pair
+    ``c, p = zip(*sorted(zip(..)))``; ``self.coords = list(c)``;
+    ``self.payloads = list(p)`` in one block."""
+    if not isinstance(stmt, ast.Assign):
+        return False
+    if isinstance(stmt.targets[0], ast.Attribute) and \
+            stmt.targets[0].attr in ("coords", "payloads"):
+        base = text(stmt.targets[0].value)
+        k = _unzipped_sorted(ctx, f, stmt.value, base)
+        want_k = 0 if stmt.targets[0].attr == "coords" else 1
+        if k != want_k:
+            return False
+        other = "payloads" if want_k == 0 else "coords"
+        pb = parent_block(stmt)
+        for st in (pb[0] if pb else []):
+            if isinstance(st, ast.Assign) and isinstance(st.targets[0], ast.Attribute) \
+                    and st.targets[0].attr == other and \
+                    text(st.targets[0].value) == base and \
+                    _unzipped_sorted(ctx, f, st.value, base) == 1 - want_k:
+                return True
+        return False
+    if not isinstance(stmt.targets[0], (ast.Tuple, ast.List)):
         return False
     tg = [text(t) for t in stmt.targets[0].elts]
     if len(tg) != 2 or not tg[0].endswith(".coords") or \
@@ -601,7 +644,9 @@ def _r4_rebind(ctx, f, m):
         if test is not None:
             conj = {(text(t).replace(" ", ""), pol)
                     for t, pol in pat.conjuncts(test)}
-        base_txt = text(m.stmt.targets[0].elts[0])[:-7]
+        t0 = m.stmt.targets[0]
+        base_txt = text(t0.elts[0])[:-7] if isinstance(t0, (ast.Tuple, ast.List)) \
+            else text(t0.value)
         fl = [t for t, pol in conj if not pol and t.isidentifier()]
         flag = fl[0] if len(fl) == 1 else None
         # the flag: True before the rewriting loop, and inside it only ever
@@ -842,10 +887,19 @@ def _r4_setitem(ctx, f, m):
             if not any("_ordered" in text(t) and pol for t, pol in ags):
                 continue
             for t, pol in ags:
-                if pol:
-                    p = pat.cmp_parts(ctx, f, t, pol)
-                    if p:
-                        got.add(p)
+                if not pol:
+                    continue
+                # a disjunction of neighbour tests may share one raise
+                for disj in (pat.dnf(t, True) or []):
+                    for atxt, apol in disj:
+                        try:
+                            ae = ast.parse(atxt, mode="eval").body
+                        except SyntaxError:
+                            continue
+                        p = pat.cmp_parts(ctx, f, ae, apol)
+                        if p:
+                            got.add((p[0], p[1].replace(" ", ""), p[2].replace(" ", "")))
+        want = {(o, a.replace(" ", ""), b.replace(" ", "")) for o, a, b in want}
         missing = want - got
         if not missing:
             ctx.ok("C01.R4", f, m.node, "(c) replace guarded by both "
@@ -898,7 +952,10 @@ def r4_helpers(ctx):
             continue
         iv = lp.target.id
         for n in lp.body:
-            if not (isinstance(n, ast.If) and any(isinstance(b, ast.Break) for b in n.body)):
+            if not (isinstance(n, ast.If) and any(
+                    isinstance(b, ast.Break) or
+                    (isinstance(b, ast.Return) and text(b.value) == iv)
+                    for b in n.body)):
                 continue
             a = pat.catom(ctx, f, n.test, True, False)
             if a[0] == "truth" or not any(x.endswith("[%s]" % iv) for x in a[1:]):
